@@ -529,6 +529,25 @@ func (e *Engine) GenRefinementVC(ikey string, ict *Contract, m *ssa.Function, if
 	if cct == nil {
 		panic(contractError("refinement: " + m.String() + " has no contract"))
 	}
+	if e.RefineDrop != nil {
+		// a postcondition of the concrete contract that the running check does not claim (not_claimed.json, open known
+		// finding) is not proved of the body: the refinement must not rest on it, so it is not assumed here
+		cp := *cct
+		cp.Ensures = nil
+		short := shortFuncName(m)
+		for i, c := range cct.Ensures {
+			label := fmt.Sprintf("%d", i+1)
+			if c.Name != "" {
+				label = c.Name
+			}
+			if e.RefineDrop(short + "#post:" + label) {
+				vc.note("refinement: unclaimed concrete postcondition not assumed: " + short + "#post:" + label)
+				continue
+			}
+			cp.Ensures = append(cp.Ensures, c)
+		}
+		cct = &cp
+	}
 	fr := vc.newFrame(m, 0)
 	fr.top = true
 	fr.contract = ict
